@@ -387,6 +387,16 @@ def opTimeout (s : St) (ch : Chan) (seq : Nat) : St × String :=
     | .ok s1 => (s1, "ok")
     | r => (s, r.cls)
 
+/-- MsgTimeout delivered while the channel cannot carry a re-sent packet (`SendPacket` fails: the channel is not OPEN, the
+    client is not active): with a retry left the keeper's handler returns that error and the whole message is rolled back —
+    nothing changes, the relayer can deliver the timeout again later; without a retry left nothing is sent and the timeout
+    proceeds as usual.  (Fault injection at the core-IBC boundary; not an `Op` of the histories the theorems quantify over: it
+    is the identity on the state.) -/
+def opTimeoutNoSend (s : St) (ch : Chan) (seq : Nat) : St × String :=
+  match s.out ⟨ch, seq⟩ with
+  | some o => if o.retries - 1 > 0 ∧ (opTimeout s ch seq).2 = "ok" then (s, "err") else opTimeout s ch seq
+  | none => opTimeout s ch seq
+
 def step (s : St) : Op → St × String
   | .transfer sender ch d x receiver memo => opTransfer s sender ch d x receiver memo
   | .recv ch seq x t => opRecv s ch seq x t
